@@ -45,6 +45,9 @@ func AuthRequestError(w http.ResponseWriter, r *http.Request, authReq ErrAuthReq
 		http.Error(w, e.Description, http.StatusBadRequest)
 		return
 	}
+	// the error may be a value the caller shares between requests: complete a copy of it
+	errCopy := *e
+	e = &errCopy
 	e.State = authReq.GetState()
 	var sessionState string
 	authRequestSessionState, ok := authReq.(AuthRequestSessionState)
@@ -97,6 +100,9 @@ func TryErrorRedirect(ctx context.Context, authReq ErrAuthRequest, parent error,
 		return nil, AsStatusError(e, http.StatusBadRequest)
 	}
 
+	// the error may be a value the caller shares between requests: complete a copy of it
+	errCopy := *e
+	e = &errCopy
 	e.State = authReq.GetState()
 	var sessionState string
 	authRequestSessionState, ok := authReq.(AuthRequestSessionState)
